@@ -28,6 +28,7 @@
    occurrence, which is the property's wording.) *)
 
 From Gogu Require Import Base Mem C19_Model C19_Proofs C19_ProofsSList C19_ProofsDList C19_ProofsHist C19_Wire.
+From Gogu Require C19_PropsNaN.   (* the kinds 12..23 of the wire: C19_nan_checker_is_spec *)
 Local Open Scope Z_scope.
 
 (* ====================================================================== *)
@@ -67,7 +68,8 @@ Print Assumptions C19_reachable_heap_is_seq.
 
 (* the property checker used by ./check is the model: on every wire input the
    model's observation is the specification's, hence c19_holds accepts exactly
-   the observations c19_agree accepts *)
+   the observations c19_agree accepts (the kinds 12..23 — element types whose ==
+   is not the identity — by C19_PropsNaN.C19_nan_checker_is_spec) *)
 Theorem C19_checker_is_spec : forall w, c19_run w = c19_spec w.
 Proof.
   intros w. unfold c19_run, c19_spec. destruct (decode w) as [[[k v] ops]|].
@@ -76,7 +78,7 @@ Proof.
     cbn [flat_map map]. rewrite IH. f_equal.
     destruct o as [r vs fl| |]; try reflexivity.
     destruct r; try reflexivity. cbn. destruct (k0 =? 0); reflexivity.
-  - destruct (decode_q w) as [[[k v] ops]|]; [|reflexivity].
+  - destruct (decode_q w) as [[[k v] ops]|]; [|apply C19_PropsNaN.C19_nan_checker_is_spec].
     rewrite <- checkpointed_refines_spec.
     induction (runq_model k v ops) as [|o os IH]; [reflexivity|].
     cbn [flat_map map]. rewrite IH. f_equal.
